@@ -1,12 +1,40 @@
 (* Dispatcher for C06: run the Field/extent model on an encoded case. *)
-From LV Require Import Extract.FieldCodec.
+From LV Require Import Extract.FieldCodec Model.FieldApi.
 Require Import ExtrOcamlBasic.
 
 Definition L1 := 1%nat.
 Definition S1 := GRS L1.
 
+Definition ppx : parser px :=
+  t <- pZ ;;
+  if t =? 0 then pret PxNone else if t =? 1 then (q <- pQ ;; pret (PxS q))
+  else if t =? 2 then (a <- pQ ;; b <- pQ ;; pret (PxP a b)) else pfail.
+Definition epx (p : px) : list Z :=
+  match p with PxNone => [0] | PxS q => 1 :: eQ q | PxP a b => 2 :: eQ a ++ eQ b end.
+Definition epfield (fp : pxfield S1) : list Z := efield L1 (fst fp) ++ epx (snd fp).
+
 Definition run_c06 (inp : list Z) : list Z :=
   match inp with
+  | 11 :: rest =>  (* merge(a, b, enforce_overlap) on Fields carrying a pixelscale *)
+    match pall (a <- pfield L1 ;; pa <- ppx ;; b <- pfield L1 ;; pb <- ppx ;; e <- pbool ;; pret (a, pa, b, pb, e)) rest with
+    | Some (a, pa, b, pb, e) => eresult epfield (merge_pub (a, pa) (b, pb) e)
+    | None => emalformed end
+  | 12 :: rest =>  (* overlap(fields) *)
+    match pall (plist (pfield L1)) rest with
+    | Some fs => [0; if overlap fs then 1 else 0]
+    | None => emalformed end
+  | 13 :: rest =>  (* _merge(fields) with the pixelscale check; the empty collection included *)
+    match pall (plist (ppair (pfield L1) ppx)) rest with
+    | Some fs => eresult epfield (merge_px fs)
+    | None => emalformed end
+  | 14 :: rest =>  (* array_extent(shape, shift, parent_shape) for shapes of any length *)
+    match pall (sh <- plist pZ ;; r <- pZ ;; c <- pZ ;; p <- popt (ppair pZ pZ) ;; pret (sh, r, c, p)) rest with
+    | Some (sh, r, c, p) => 0 :: eextent (array_extent_any sh r c p)
+    | None => emalformed end
+  | 15 :: rest =>  (* Field attributes: shape, size, extent *)
+    match pall (pfield L1) rest with
+    | Some f => 0 :: eopt (fun '(x, y) => [x; y]) (fshape f) ++ [fsize f] ++ eextent (fextent f)
+    | None => emalformed end
   | 1 :: rest =>   (* a * b *)
     match pall (ppair (pfield L1) (pfield L1)) rest with
     | Some (a, b) => 0 :: eopt (efield L1) (fmul a b)
